@@ -4,6 +4,7 @@ import (
 	"bytes"
 	"errors"
 	"fmt"
+	"strings"
 
 	docdid "github.com/trustbloc/did-go/doc/did"
 	"github.com/trustbloc/did-go/doc/did/endpoint"
@@ -104,6 +105,8 @@ type lifecycleChecker struct {
 	seq    string
 	trace  []string
 	time   uint64
+	// multihash code the caller asked for in the request being checked (0 = do not check)
+	wantDeltaCode uint64
 }
 
 func newLifecycleChecker(c *fw.Case) *lifecycleChecker {
@@ -128,6 +131,50 @@ func (lc *lifecycleChecker) step(req []byte, typ string, facts oracle.OpFacts, w
 		w["got_type"], w["got_suffix"], w["want_suffix"] = op.Type, op.UniqueSuffix, wantSuffix
 		c.Failf("built-request-misparsed", w, "%s request parsed with type %s suffix %s", typ, op.Type, op.UniqueSuffix)
 		return false
+	}
+	// the request must reveal the commitment currently installed on its chain, and its delta hash must use the
+	// algorithm the caller asked for (decoded with the harness codec)
+	if typ != "create" {
+		g, _ := oracle.ParseJSON(req)
+		gm, _ := g.(map[string]interface{})
+		rv, _ := gm["revealValue"].(string)
+		wantPrev := lc.model.UpdateCommitment
+		if typ != "update" {
+			wantPrev = lc.model.RecoveryCommitment
+		}
+		c.Count("commitment-chain-links", 1)
+		if derived, derr := oracle.CommitmentFromReveal(rv); derr != nil || derived != wantPrev {
+			w["reveal_value"], w["derived_commitment"], w["installed_commitment"] = rv, derived, wantPrev
+			c.Failf("request-does-not-reveal-installed-commitment:"+typ, w, "%s request from %s: commitment derived from its reveal value is not the commitment installed by the previous operation", typ, source)
+			return false
+		}
+	}
+	if lc.wantDeltaCode != 0 && typ != "deactivate" {
+		g, _ := oracle.ParseJSON(req)
+		gm, _ := g.(map[string]interface{})
+		if dl, ok := gm["delta"]; ok {
+			found := false
+			for _, code := range []uint64{18, 19} {
+				if h, err := oracle.ModelHash(code, dl); err == nil && strings.Contains(string(req), h) {
+					found = code == lc.wantDeltaCode
+				}
+			}
+			// update/recover carry the delta hash inside the JWS payload
+			if sdj, ok := gm["signedData"].(string); ok && !found {
+				if parts := strings.Split(sdj, "."); len(parts) == 3 {
+					if pb, err := oracle.B64DecodeStrict(parts[1]); err == nil {
+						if h, err := oracle.ModelHash(lc.wantDeltaCode, dl); err == nil && strings.Contains(string(pb), h) {
+							found = true
+						}
+					}
+				}
+			}
+			if !found {
+				w["requested_hash_algorithm"] = lc.wantDeltaCode
+				c.Failf("delta-hash-algorithm:"+typ, w, "%s request from %s does not carry the delta hash computed with the requested algorithm %d", typ, source, lc.wantDeltaCode)
+				return false
+			}
+		}
 	}
 	// anchored form
 	internal, err := lc.st.Parser.ParseOperation(lc.ns, req, false)
@@ -509,7 +556,7 @@ func c08Client(c *fw.Case) {
 		copts = append(copts, create.WithService(&sc))
 		expSvcs = append(expSvcs, exp)
 	}
-	for _, u := range genPick(r, gen.URIPool, na) {
+	for _, u := range gen.PickURIs(r, na) {
 		copts = append(copts, create.WithAlsoKnownAs(u))
 		expAka = append(expAka, u)
 	}
@@ -553,7 +600,7 @@ func c08Client(c *fw.Case) {
 			var ps []interface{}
 			var rmAka, rmKeys, rmSvcs []string
 			var addAka, addSvcs, addKeys []interface{}
-			for _, u := range genPick(r, gen.URIPool, r.Intn(2)) {
+			for _, u := range gen.PickURIs(r, r.Intn(2)) {
 				uopts = append(uopts, update.WithRemoveAlsoKnownAs(u))
 				rmAka = append(rmAka, u)
 			}
@@ -565,7 +612,7 @@ func c08Client(c *fw.Case) {
 				uopts = append(uopts, update.WithRemoveService(id))
 				rmSvcs = append(rmSvcs, id)
 			}
-			for _, u := range genPick(r, gen.URIPool, r.Intn(3)) {
+			for _, u := range gen.PickURIs(r, r.Intn(3)) {
 				uopts = append(uopts, update.WithAddAlsoKnownAs(u))
 				addAka = append(addAka, u)
 			}
@@ -628,8 +675,14 @@ func c08Client(c *fw.Case) {
 	// --- recover
 	nextU, _ := newLibKey(r, kt)
 	nextR, _ := newLibKey(r, kt)
+	oldCommit := commit(rec) // the commitment being revealed keeps the algorithm it was made with
+	if r.Chance(1, 3) {
+		code = 37 - code // the controller migrates to the other hash algorithm with this recover
+		optsig += "m"
+	}
+	lc.wantDeltaCode = uint64(code)
 	ropts := []recovery.Option{recovery.WithSigner(rec.signer(kid(r))), recovery.WithNextRecoveryPublicKey(nextR.k.Public()), recovery.WithNextUpdatePublicKey(nextU.k.Public()),
-		recovery.WithOperationCommitment(commit(rec)), recovery.WithMultiHashAlgorithm(code)}
+		recovery.WithOperationCommitment(oldCommit), recovery.WithMultiHashAlgorithm(code)}
 	rdoc := map[string]interface{}{}
 	var rk, rs []interface{}
 	for _, id := range genPick(r, gen.KeyIDPool, r.Range(1, 3)) {
